@@ -181,6 +181,9 @@ def main(run):
     for i in range(N_STREAM[run.tier]):
         exact = i % 4 == 0
         cfg = gen_cfg(rnd, rnd.choice(["sage", "pfi"]), exact)
+        if i in (7, 19):         # more than a thousand calls on one explainer, the bounds read after every call (call counters 256, 512, 1024)
+            from ..harness import make_long
+            make_long(cfg, rnd, 1100)
         seed = rnd.randrange(2 ** 31)
         try:
             sc = Scenario(cfg, seed, record_imputer=False)
